@@ -127,6 +127,79 @@ func entityStream(cfg *vh.Config, res *vh.Result, firstCase int) ([]string, erro
 			Shard: fmt.Sprintf("ecases_%d", k/perShard), Pos: k % perShard})
 	}
 	res.Evaluations += n
+	// ---- a message appended to a publish topic all of whose messages have names of their own
+	// (preferably one with exactly ONE message): the existing rpcs / messages keep their names
+	nt := cfg.Scale(10, 100) + 1
+	for i := 0; i < nt; i++ {
+		label := fmt.Sprintf("c13t-%d", i)
+		var b0, b1 *j5sgen.Bundle
+		var pkg string
+		var rec *j5sgen.TopicMsgRec
+		stream := "topic-message-append"
+		if i == 0 {
+			b0, b1, pkg, rec = j5sgen.TopicMsgCorpus()
+			stream = "topic-message-append-corpus:orders"
+		} else {
+			gcfg := j5sgen.DefaultConfig()
+			gcfg.MaxFiles, gcfg.MaxPackages, gcfg.PFiles, gcfg.Descriptions, gcfg.Entities = 2, 2, false, false, false
+			gcfg.MaxDepth, gcfg.MaxFields = 3, 4
+			if i%2 == 0 {
+				gcfg.Imports, gcfg.MaxPackages, gcfg.MaxFiles = false, 1, 1
+			}
+			for try := 0; try < 300 && rec == nil; try++ {
+				l := fmt.Sprintf("%s-%d", label, try)
+				b1, pkg = j5sgen.NewGen(cfg.R.Fork(l), gcfg).Bundle()
+				if rec = j5sgen.AppendTopicMessage(cfg.R.Fork(l+"-edit"), b1, pkg); rec != nil {
+					b0, _ = j5sgen.NewGen(cfg.R.Fork(l), gcfg).Bundle()
+				}
+			}
+			if rec == nil {
+				continue
+			}
+		}
+		t0 := b0.Texts(cfg.R.Fork(label + "-print"))
+		t1 := b1.Texts(cfg.R.Fork(label + "-print2"))
+		g0 := compileReal(t0, pkg)
+		g1 := compileReal(t1, pkg)
+		in := map[string]any{"package": pkg, "before": t0, "after": t1, "edits": []any{rec}}
+		caseNo := firstCase + n + i
+		res.Count("topicmsg_pairs")
+		if rec.Single {
+			res.Count("topicmsg_pairs_single_message_before")
+		}
+		if g0.panic != nil || g1.panic != nil {
+			res.Fail(vh.Failure{Case: caseNo, Stream: stream, Sig: "C13 compiler panic", Clause: "valid packages compile", Input: in, Got: fmt.Sprint(g0.panic, g1.panic)})
+			continue
+		}
+		switch {
+		case !g0.ok:
+			res.Count("topicmsg_before_rejected")
+		case !g1.ok:
+			res.Count("topicmsg_after_rejected")
+			sig := "C13 package no longer compiles after a message is appended to a publish topic: " + strings.TrimPrefix(classifyError(g1.err), "C02 valid package rejected: ")
+			res.Fail(vh.Failure{Case: caseNo, Stream: stream, Sig: sig, Clause: "append edits leave every previously generated element unchanged", Input: in, Got: g1.err})
+		default:
+			res.Count("topicmsg_both_compiled")
+			// service / method identities of the topic: every old rpc is still there under its name, with its request message
+			for _, v := range (&c13oracle{}).files(g0.files, g1.files) {
+				sig := v.Sig
+				switch {
+				case strings.HasPrefix(sig, "C13 method removed"):
+					sig = "C13 existing rpc of a publish topic renamed / removed by appending a message to the topic"
+				case strings.HasPrefix(sig, "C13 message removed"):
+					sig = "C13 existing message type of a publish topic renamed / removed by appending a message to the topic"
+				}
+				res.Fail(vh.Failure{Case: caseNo, Stream: stream, Sig: sig, Clause: v.Clause, Input: in, Got: v.Got, Want: v.Want})
+			}
+		}
+		okall0, okall1 := acceptsAll(b0, t0, pkg, g0.ok), acceptsAll(b1, t1, pkg, g1.ok)
+		cf.Terms = append(cf.Terms, fmt.Sprintf("CAppendPair\n   %s\n   %s\n   %s\n   %s %s %s %s true\n   %s\n   %s", b0.Coq(), b1.Coq(), j5sgen.S(pkg),
+			vh.BoolTerm(g0.ok), vh.BoolTerm(g1.ok), vh.BoolTerm(okall0), vh.BoolTerm(okall1), filesCoq(g0.files), filesCoq(g1.files)))
+		k := len(cf.Terms) - 1
+		recs = append(recs, vh.CaseRec{Case: caseNo, Stream: stream, Input: in, Impl: map[string]any{"ok_before": g0.ok, "ok_after": g1.ok, "err_after": g1.err},
+			Shard: fmt.Sprintf("ecases_%d", k/perShard), Pos: k % perShard})
+	}
+	res.Evaluations += nt
 	shards, err := cf.WriteShards(cfg.Out, "ecases", perShard)
 	if err != nil {
 		return nil, err
